@@ -1,8 +1,131 @@
 import RisorModel.Util
-/-! Line-protocol front end of the C02 model (stub until the model exists). -/
+import RisorModel.C02.Model
+/-!
+Line-protocol front end of the C02 model (requests after the leading `C02` field).
+
+  run <mainLocals> <fuel> <program>     program := space-separated S-expression tokens
+     (prog s…)  s,e := (i N) (n) (F) (ch) (v x) (+ a b) (fn name (p…) s…) (c f a…) (l e…)
+                       (x e i) (m e…) (k e i) (r kind a…) (d x e) (a x e) (ret e)
+  reply: <Impl outcome> TAB <Spec outcome> TAB <MAKE_CELL groups> TAB <deep>
+     outcome := ok <value> | err <class> | undef
+     groups  := per function literal with free variables "slot:back,slot:back" joined by ";" ("-" if none)
+     deep    := true iff some MAKE_CELL has framesBack ≥ 1 (the guard of the known finding is `false`)
+  acts <mode> <op…>    the abstract activation machine: ops m:d1,d2… | c:N | s:N | r
+-/
 namespace Risor.C02
 
+inductive SExp
+  | atom (s : String)
+  | list (xs : List SExp)
+  deriving Repr, Inhabited
+
+mutual
+def parseS : Nat → List String → Option (SExp × List String)
+  | 0, _ => none
+  | _ + 1, [] => none
+  | n + 1, "(" :: rest => do
+    let (xs, rest) ← parseSeq n rest
+    pure (.list xs, rest)
+  | _ + 1, ")" :: _ => none
+  | _ + 1, a :: rest => some (.atom a, rest)
+def parseSeq : Nat → List String → Option (List SExp × List String)
+  | 0, _ => none
+  | _ + 1, [] => none
+  | _ + 1, ")" :: rest => some ([], rest)
+  | n + 1, toks => do
+    let (x, rest) ← parseS n toks
+    let (xs, rest) ← parseSeq n rest
+    pure (x :: xs, rest)
+end
+
+def routeOf : String → Option Route
+  | "map" => some .map | "filter" => some .filter | "each" => some .each | "sorted" => some .sorted
+  | "try" => some .try_ | "spawn" => some .spawn | "go" => some .gospawn
+  | _ => none
+
+def atomsOf : List SExp → Option (List String)
+  | [] => some []
+  | .atom a :: rest => (atomsOf rest).map (a :: ·)
+  | _ => none
+
+mutual
+def toTm : Nat → SExp → Option Tm
+  | 0, _ => none
+  | n + 1, .list (.atom tag :: args) =>
+    match tag, args with
+    | "i", [.atom v] => v.toInt?.map Tm.int
+    | "n", [] => some .nil
+    | "F", [] => some .fail
+    | "ch", [] => some .mkchan
+    | "v", [.atom x] => some (.var x)
+    | "+", [a, b] => do pure (.add (← toTm n a) (← toTm n b))
+    | "fn", .atom name :: .list ps :: body => do
+      pure (.fn name (← atomsOf ps) (← toTms n body))
+    | "c", f :: as => do pure (.call (← toTm n f) (← toTms n as))
+    | "l", es => do pure (.list (← toTms n es))
+    | "x", [e, .atom i] => do pure (.idx (← toTm n e) (← i.toNat?))
+    | "m", es => do pure (.mapLit (← toTms n es))
+    | "k", [e, .atom i] => do pure (.key (← toTm n e) (← i.toNat?))
+    | "r", .atom k :: as => do pure (.route (← routeOf k) (← toTms n as))
+    | "d", [.atom x, e] => do pure (.decl x (← toTm n e))
+    | "a", [.atom x, e] => do pure (.assign x (← toTm n e))
+    | "ret", [e] => do pure (.ret (← toTm n e))
+    | _, _ => none
+  | _ + 1, _ => none
+def toTms : Nat → List SExp → Option (List Tm)
+  | 0, _ => none
+  | _ + 1, [] => some []
+  | n + 1, x :: xs => do pure ((← toTm n x) :: (← toTms n xs))
+end
+
+def parseProg (src : String) : Option (List Tm) := do
+  let toks := (src.splitOn " ").filter (· ≠ "")
+  let (s, rest) ← parseS (toks.length + 1) toks
+  if !rest.isEmpty then none
+  match s with
+  | .list (.atom "prog" :: body) => toTms (toks.length + 1) body
+  | _ => none
+
+def showGroup (fs : List (Nat × Nat)) : String :=
+  ",".intercalate (fs.map fun p => toString p.1 ++ ":" ++ toString p.2)
+
+def showGroups (lits : List Lit) : String :=
+  let gs := (lits.filter fun l => !l.frees.isEmpty).map fun l => showGroup l.frees
+  if gs.isEmpty then "-" else ";".intercalate gs
+
+def parseOp (s : String) : Option AOp :=
+  match s.splitOn ":" with
+  | ["r"] => some .ret
+  | ["c", n] => n.toNat?.map AOp.call
+  | ["s", n] => n.toNat?.map AOp.spawn
+  | ["m"] => some (.makeClosure [])
+  | ["m", ds] => ((ds.splitOn ",").mapM String.toNat?).map AOp.makeClosure
+  | _ => none
+
+def showAState (s : AState) : String :=
+  let clo (c : AClo) : String :=
+    toString c.definer ++ "<" ++ ",".intercalate (c.captured.map fun o => match o with | some a => toString a | none => "x") ++ ">"
+  " ".intercalate (s.closures.map clo) ++ " | " ++
+    "/".intercalate (s.stacks.map fun st => ",".intercalate (st.map toString))
+
 def handle : List String → String
-  | _ => "error\tnot-implemented"
+  | ["run", ml, fuel, src] =>
+    match ml.toNat?, fuel.toNat?, parseProg src with
+    | some ml, some fuel, some tms =>
+      match resolveProg tms ml with
+      | .error e => "error\tresolve:" ++ e
+      | .ok p =>
+        showOutcome (Impl fuel p) ++ "\t" ++ showOutcome (Spec fuel p) ++ "\t" ++ showGroups p.lits ++ "\t" ++
+          toString (!depth1Only p.lits)
+    | _, _, _ => "error\tbad-request"
+  | "acts" :: mode :: ops =>
+    match ops.mapM parseOp with
+    | some ops =>
+      let m := if mode == "lexical" then Mode.lexical else Mode.positional
+      match AState.run m AState.init ops with
+      | some s => "ok\t" ++ showAState s
+      | none => "stuck"
+    | none => "error\tbad-op"
+  | _ => "error\tunknown-request"
 
 end Risor.C02
